@@ -78,6 +78,7 @@ async def pair_scenario(loop, case):
     from harness import link as L
     rng = random.Random(case['seed'])
     pubs, futs = [], []
+    futs_all = []
 
     class Pub:
         def __init__(self, items):
@@ -124,6 +125,7 @@ async def pair_scenario(loop, case):
         async def request_response(self, payload):
             f = asyncio.get_event_loop().create_future()
             futs.append(f)
+            futs_all.append(f)
             return f
 
         async def request_stream(self, payload):
@@ -197,7 +199,10 @@ async def pair_scenario(loop, case):
     res = {'tables': [sorted(client._stream_control._streams), sorted(server._stream_control._streams)],
            'caches': [sorted(client._frame_fragment_cache._frames_by_stream_id), sorted(server._frame_fragment_cache._frames_by_stream_id)],
            'stuck_publishers': len([p for p in pubs if p.sub is not None and not p.done and not p.cancelled]), 'rounds': rnd,
-           'unfinished': len([1 for pl, h, d0, fired in started if pl['cancel'] is not None and not fired])}
+           'unfinished': len([1 for pl, h, d0, fired in started if pl['cancel'] is not None and not fired]),
+           'pending_handler_futures': len([f for f in futs_all if not f.done()]),
+           # what the client put on the wire, in order (message framing only): [stream id, frame type, FOLLOWS]
+           'client_wire': [[f.stream_id, type(f).__name__, bool(getattr(f, 'flags_follows', False))] for f in lk.sent_frames[0]] if not case['tcp'] else None}
     try:
         await client.close()
         await server.close()
